@@ -111,9 +111,10 @@ type gcEnt struct {
 }
 
 type gcCfg struct {
-	id string
-	k  int
-	rel bool
+	id     string
+	k      int
+	rel    bool
+	zfirst bool // a zero-sized component with a lower ID than the pointer component is part of every entity
 }
 
 func (c *gcCfg) Name() string { return c.id }
@@ -151,6 +152,7 @@ type gcRun struct {
 	cfg       *gcCfg
 	w         ecs.World
 	pc, a, r  ecs.ID
+	z         ecs.ID
 	ents      []gcEnt
 	dropped   []*gcObjRec
 	nextCan   uint64
@@ -162,6 +164,9 @@ type gcRun struct {
 func (c *gcCfg) New() wx.Run {
 	r := &gcRun{cfg: c}
 	r.w = ecs.NewWorld(ecs.NewConfig().WithCapacityIncrement(1))
+	if c.zfirst {
+		r.z = ecs.ComponentID[sim.CompZ](&r.w)
+	}
 	r.pc = ecs.ComponentID[gen14.PC](&r.w)
 	r.a = ecs.ComponentID[sim.CompA](&r.w)
 	r.r = ecs.ComponentID[sim.CompR](&r.w)
@@ -265,19 +270,27 @@ func (r *gcRun) Apply(op wx.Op) (res wx.Result) {
 	case gcNewWith:
 		o, rec := r.newObj()
 		var h ecs.Entity
+		extra := []ecs.Component{}
+		if r.cfg.zfirst {
+			extra = append(extra, ecs.Component{ID: r.z, Comp: &sim.CompZ{}})
+		}
 		switch op.A {
 		case 0:
-			h = w.NewEntityWith(ecs.Component{ID: r.pc, Comp: &gen14.PC{P: o}})
+			h = w.NewEntityWith(append(extra, ecs.Component{ID: r.pc, Comp: &gen14.PC{P: o}})...)
 			r.ents = append(r.ents, gcEnt{h: h, alive: true, hasPC: true, obj: rec})
 		case 1:
-			h = w.NewEntityWith(ecs.Component{ID: r.pc, Comp: &gen14.PC{P: o}}, ecs.Component{ID: r.a, Comp: &sim.CompA{V: 1}})
+			h = w.NewEntityWith(append(extra, ecs.Component{ID: r.pc, Comp: &gen14.PC{P: o}}, ecs.Component{ID: r.a, Comp: &sim.CompA{V: 1}})...)
 			r.ents = append(r.ents, gcEnt{h: h, alive: true, hasPC: true, hasA: true, obj: rec})
 		default:
 			h = ecs.NewBuilderWith(w, ecs.Component{ID: r.pc, Comp: &gen14.PC{P: o}}, ecs.Component{ID: r.r, Comp: &sim.CompR{V: 2}}).WithRelation(r.r).New(r.ents[0].h)
 			r.ents = append(r.ents, gcEnt{h: h, alive: true, hasPC: true, hasR: true, obj: rec, target: 0})
 		}
 	case gcNewZero:
-		h := w.NewEntity(r.pc)
+		ids := []ecs.ID{r.pc}
+		if r.cfg.zfirst {
+			ids = append(ids, r.z)
+		}
+		h := w.NewEntity(ids...)
 		r.ents = append(r.ents, gcEnt{h: h, alive: true, hasPC: true})
 	case gcSet:
 		e := &r.ents[op.A]
@@ -640,9 +653,94 @@ func abstractTrace(recs []memRec, cols []ecs.VerifColumn) *gcTrace {
 	return t
 }
 
+// c14KindTraces runs a fixed script of storage operations for components of every pointer-bearing shape with the memory
+// hook installed and adds the abstract traces to shapes.
+func c14KindTraces(shapes map[string]*gcTrace) (traced int, kinds []string) {
+	type kind struct {
+		name string
+		tp   reflect.Type
+		mk   func(i int) interface{}
+	}
+	o := func(i int) *gen14.Obj { return &gen14.Obj{Canary: uint64(i)} }
+	ks := []kind{
+		{"pointer", reflect.TypeOf(gen14.PC{}), func(i int) interface{} { return &gen14.PC{P: o(i)} }},
+		{"slice", reflect.TypeOf(gen14.SC{}), func(i int) interface{} { return &gen14.SC{S: []uint64{uint64(i)}} }},
+		{"string", reflect.TypeOf(gen14.StrC{}), func(i int) interface{} { return &gen14.StrC{S: fmt.Sprint("s", i)} }},
+		{"map", reflect.TypeOf(gen14.MC{}), func(i int) interface{} { return &gen14.MC{M: map[int]uint64{i: 1}} }},
+		{"interface", reflect.TypeOf(gen14.IfaceC{}), func(i int) interface{} { return &gen14.IfaceC{ID: i + 1, Value: o(i)} }},
+		{"chan", reflect.TypeOf(gen14.ChanC{}), func(i int) interface{} { return &gen14.ChanC{C: make(chan int)} }},
+		{"func", reflect.TypeOf(gen14.FuncC{}), func(i int) interface{} { x := o(i); return &gen14.FuncC{F: func() { _ = x }} }},
+		{"array-of-pointers", reflect.TypeOf(gen14.ArrC{}), func(i int) interface{} { return &gen14.ArrC{A: [2]*gen14.Obj{o(i), o(i + 1)}} }},
+		{"nested-struct", reflect.TypeOf(gen14.NestC{}), func(i int) interface{} {
+			c := &gen14.NestC{N: int32(i + 1)}
+			c.In.P = o(i)
+			return c
+		}},
+		{"unsafe.Pointer", reflect.TypeOf(gen14.UPC{}), func(i int) interface{} { return &gen14.UPC{U: unsafe.Pointer(o(i))} }},
+	}
+	var cur []memRec
+	ecs.VerifSetMemHook(func(op ecs.VerifMemOp) {
+		rec := memRec{op: op, site: siteOf()}
+		if op.Src != nil && op.Size >= 8 {
+			rec.word = *(*uintptr)(op.Src)
+		}
+		if op.Dst != nil && op.Size >= 8 {
+			rec.old = *(*uintptr)(op.Dst)
+		}
+		cur = append(cur, rec)
+	})
+	defer ecs.VerifSetMemHook(nil)
+	for _, k := range ks {
+		kinds = append(kinds, k.name)
+		w := ecs.NewWorld(ecs.NewConfig().WithCapacityIncrement(1))
+		id := ecs.TypeID(&w, k.tp)
+		a := ecs.ComponentID[sim.CompA](&w)
+		rid := ecs.ComponentID[sim.CompR](&w)
+		var e1, e2, e3 ecs.Entity
+		steps := []struct {
+			name string
+			run  func()
+		}{
+			{"NewEntityWith", func() { e1 = w.NewEntityWith(ecs.Component{ID: id, Comp: k.mk(1)}) }},
+			{"NewEntityWith (growth)", func() { e2 = w.NewEntityWith(ecs.Component{ID: id, Comp: k.mk(2)}) }},
+			{"Builder.New with relation", func() {
+				e3 = ecs.NewBuilderWith(&w, ecs.Component{ID: id, Comp: k.mk(3)}, ecs.Component{ID: rid, Comp: &sim.CompR{}}).WithRelation(rid).New(e2)
+			}},
+			{"Add (move to another table, swap-remove)", func() { w.Add(e1, a) }},
+			{"Set", func() { w.Set(e1, id, k.mk(4)) }},
+			{"Assign", func() { e := w.NewEntity(); w.Assign(e, ecs.Component{ID: id, Comp: k.mk(5)}) }},
+			{"Relations.Set (move between target tables)", func() { w.Relations().Set(e3, rid, e1) }},
+			{"Batch.Add (batch move)", func() { f := ecs.All(id).Without(a); w.Batch().Add(&f, a) }},
+			{"Remove component", func() { w.Remove(e1, id) }},
+			{"RemoveEntity", func() { w.RemoveEntity(e2) }},
+			{"Batch.RemoveEntities", func() { w.Batch().RemoveEntities(ecs.All(id)) }},
+			{"Reset", func() { w.NewEntityWith(ecs.Component{ID: id, Comp: k.mk(6)}); w.Reset() }},
+		}
+		for _, st := range steps {
+			before := w.VerifColumns()
+			cur = cur[:0]
+			st.run()
+			traced++
+			if t := abstractTrace(cur, append(before, w.VerifColumns()...)); t != nil {
+				key := t.shape
+				if _, ok := shapes[key]; !ok {
+					t.example = fmt.Sprintf("component holding a %s: %s", k.name, st.name)
+					shapes[key] = t
+				} else if !strings.Contains(shapes[key].example, k.name) && len(shapes[key].example) < 300 {
+					shapes[key].example += "; also " + k.name + ": " + st.name
+				}
+			}
+		}
+	}
+	return traced, kinds
+}
+
 func c14Model(rp *runner.Report) {
 	depth := pick(rp.Tier, 3, 4)
 	shapes, traced := c14Traces(depth)
+	t2, kinds := c14KindTraces(shapes)
+	traced += t2
+	rp.Extra["pointer_kinds_traced"] = kinds
 	names := []string{}
 	for s := range shapes {
 		names = append(names, s)
@@ -697,6 +795,7 @@ func init() {
 		return []runner.Job{
 			job(scAny(&gcCfg{id: "c14-gc-k2", k: 2, rel: true}), pick(tier, 6, 9), 2),
 			job(scAny(&gcCfg{id: "c14-gc-k3", k: 3, rel: false}), pick(tier, 5, 7), 1),
+			job(scAny(&gcCfg{id: "c14-gc-k2-zero-sized-first", k: 2, rel: false, zfirst: true}), pick(tier, 5, 7), 1),
 		}
 	}
 	gcJobs("quick")
